@@ -268,10 +268,13 @@ class Ctx:
 
 
 def load_known():
-    p = os.path.join(VERIF, "known_findings.json")
-    if not os.path.exists(p):
-        return []
-    return json.load(open(p)).get("findings", [])
+    """known findings: /verif/known_findings.json plus per-property files /verif/known_findings/*.json"""
+    import glob
+    out = []
+    for p in [os.path.join(VERIF, "known_findings.json")] + sorted(glob.glob(os.path.join(VERIF, "known_findings", "*.json"))):
+        if os.path.exists(p):
+            out += json.load(open(p)).get("findings", [])
+    return out
 
 
 def finish(ctx, level="proof", checker_cmd="", trusted_base=None):
